@@ -313,6 +313,7 @@ type Features struct {
 	SpreadDiffConds int
 	NamedFrags      int
 	Depth           int
+	AliasVariants   int
 }
 
 type qgen struct {
@@ -444,16 +445,25 @@ func (g *qgen) genArgs(f *TField) ([]Arg, string) {
 // response keys always mean equal field and equal arguments (thunder rejects the rest).
 func (g *qgen) alias(name, argKey string) string {
 	k := name + "|" + argKey
-	if a, ok := g.aliasOf[k]; ok {
-		return a
+	a, ok := g.aliasOf[k]
+	if !ok {
+		if argKey != "" {
+			a = fmt.Sprintf("%s_%d", name, len(g.aliasOf))
+		} else if rapid.IntRange(0, 4).Draw(g.t, "usealias") == 0 {
+			a = fmt.Sprintf("al%d_%s", len(g.aliasOf), name)
+		}
+		g.aliasOf[k] = a
 	}
-	a := ""
-	if argKey != "" {
-		a = fmt.Sprintf("%s_%d", name, len(g.aliasOf))
-	} else if rapid.IntRange(0, 4).Draw(g.t, "usealias") == 0 {
-		a = fmt.Sprintf("al%d_%s", len(g.aliasOf), name)
+	// a second response key for the same field and arguments: the same field selected under
+	// two different aliases in one scope is valid and exercises merging per alias
+	if rapid.IntRange(0, 5).Draw(g.t, "aliasvariant") == 0 {
+		base := a
+		if base == "" {
+			base = name
+		}
+		g.feat.AliasVariants++
+		return "w_" + base
 	}
-	g.aliasOf[k] = a
 	return a
 }
 
@@ -560,7 +570,34 @@ func (g *qgen) genObjSels(obj string, depth int, underUnion bool, scope map[stri
 			s.Dirs = g.genDirs(underUnion)
 			sels = append(sels, s)
 		case depth > 0: // named fragment spread
-			sels = append(sels, g.genSpread(obj, depth, underUnion, scope))
+			sp := g.genSpread(obj, depth, underUnion, scope)
+			sels = append(sels, sp)
+			// sometimes follow the spread by an inline fragment that selects one of the
+			// fragment's composite fields again, with other sub-selections: the merged copy is
+			// then built on top of a selection set that other spreads of the fragment share
+			if fd := g.q.Frag(sp.Frag); fd != nil && depth > 1 && rapid.IntRange(0, 2).Draw(g.t, "followspread") == 0 {
+				for _, fs := range fd.Sels {
+					if fs.Kind != "field" || fs.Sub == nil {
+						continue
+					}
+					tf := g.s.FieldOf(obj, fs.Name)
+					if tf == nil {
+						continue
+					}
+					cp := Sel{Kind: "field", Name: fs.Name, Alias: fs.Alias, Args: fs.Args}
+					if c, isU := Composite(tf.GoType); c != "" {
+						if isU {
+							cp.Sub = g.genUnionSels(c, depth-2)
+						} else {
+							cp.Sub = g.genObjSels(c, depth-2, false, map[string]int{})
+						}
+						g.feat.MergedAlias++
+						g.nsel++
+						sels = append(sels, Sel{Kind: "inline", On: obj, Sub: []Sel{cp}})
+					}
+					break
+				}
+			}
 		}
 	}
 	return sels
